@@ -7,6 +7,7 @@ def run(R):
         R, "C14.sites", "PARSE",
         "every panic-capable, wrapping or truncating construct reachable from the parsing entry points is "
         "mechanically discharged, discharged by a tabled reason (optionally with a re-proved guard), a known finding, or reported")
+    rules_sites.recursion_rule(R, "C14.recursion", "PARSE")
     R.assume("recursion depth of the expression parser / converter is not bounded by this analysis (stack exhaustion on deeply nested input is outside the technique)")
 
 
